@@ -594,6 +594,100 @@ def search_c11(results, tier, seed, broken):
                   "rule": "honest proofs for n in 0..4(5) multipliers (1- and 2-phase) on 3 curves: length against the formula, |L|=|R|=k, byte-exact round trip, equal verdict, arbitrary suffix; every strict prefix (all cut points on every 4th sample, every 7th byte plus the last 70 on the others); at every one of the 11+3+2k+2 field positions: a non-canonical scalar (= modulus, all-ones), a byte string that is not a curve point, and on curve25519 a small-order point and a valid point plus a small-order point; the model's decoder run on honest / mis-framed / truncated / extended / corrupted inputs with arkworks' per-chunk validity as the element-codec oracle"}
 
 
+# ------------------------------------------------------------------ C12 / C18
+def _fhit(r, cid, what):
+    return {"component": "fixture", "streams": ["fixture"], "case": cid, "what": what, "outdir": r.outdir,
+            "replay_cmd": "cd /verif/fixturegen && cargo build --release --offline && target/release/fixturegen record | diff - /verif/fixtures/reference_b4846a6.txt; target/release/fixturegen verify /verif/fixtures/reference_b4846a6.txt"}
+
+
+def search_c12(results, tier, seed, broken):
+    hits, n, nontriv, dist = [], 0, set(), Counter()
+    for comp, streams, r in results:
+        if comp == "gens":
+            for cid, s in r.summary.items():
+                n += 1
+                tag = (s.get("tag", "") or "-").split()[0]
+                im = r.impl.get(cid) or {}
+                m = r.model.get(cid) or {}
+                dist[tag] += 1
+                if tag == "gens-history":
+                    a = _ints(im.get(1, []))
+                    nontriv.add(tuple(a[:12]))
+                    if a == [99]:
+                        hits.append(_hit(r, comp, streams, cid, "new / increase_capacity / (de)serialisation panics on history: " + s["line"]))
+                    elif m.get(1) is not None and a != m[1]:
+                        k = next((i for i, (x, y) in enumerate(zip(a, m[1])) if x != y), min(len(a), len(m[1])))
+                        hits.append(_hit(r, comp, streams, cid, "after this history of capacity requests the object differs from the (kind, party, position) table at flattened index %d: implementation holds %s, specification %s (-7 = not a chain output at all); %s" % (
+                            k, a[k:k + 1], m[1][k:k + 1], s["line"])))
+                elif tag == "gens-view":
+                    a = _ints(im.get(2, []))
+                    inrange = "inrange=1" in s["line"]
+                    if inrange:
+                        nontriv.add(tuple(a[:10]))
+                        if a == [9]:
+                            hits.append(_hit(r, comp, streams, cid, "aggregated iterator panics on an in-range view: " + s["line"]))
+                        elif m.get(2) is not None and a != m[2]:
+                            hits.append(_hit(r, comp, streams, cid, "aggregated view is not the first n generators of the first m parties in party-major order: implementation %s specification %s; %s" % (a[:12], m[2][:12], s["line"])))
+                        if _ints(im.get(93, ["1"])) != [1]:
+                            hits.append(_hit(r, comp, streams, cid, "size_hint is wrong or underflows along the iteration: " + s["line"]))
+                elif tag == "gens-values":
+                    v = im.get(91, [])
+                    if len(v) >= 7:
+                        npts, coll, badm, spec_ok, ped_ok, same_hist = int(v[0]), v[1], v[2], int(v[3]), int(v[4]), int(v[5])
+                        dist["points checked"] += npts
+                        if coll != "-":
+                            hits.append(_hit(r, comp, streams, cid, "two generators coincide on %s: %s" % (s["curve"], coll)))
+                        if badm != "-":
+                            hits.append(_hit(r, comp, streams, cid, "generator %s on %s is the identity, off the curve or outside the prime-order subgroup" % (badm, s["curve"])))
+                        if not spec_ok:
+                            hits.append(_hit(r, comp, streams, cid, "generators on %s differ from SHA3-512('GeneratorsChain' || kind || LE32 party) -> ChaCha -> rand point" % s["curve"]))
+                        if not ped_ok:
+                            hits.append(_hit(r, comp, streams, cid, "Pedersen bases on %s differ from (generator, rand point from ChaCha(SHA3-512(uncompressed generator)))" % s["curve"]))
+                        if not same_hist:
+                            hits.append(_hit(r, comp, streams, cid, "an object grown through 3 -> 100 -> 7 -> cap differs from new(cap) on %s" % s["curve"]))
+        if comp == "fixture" and hasattr(r, "fixture"):
+            for cid, code, text in r.disagreements:
+                if cid.split()[0] in ("GENS", "GEN0", "PED"):
+                    n += 1
+                    hits.append(_fhit(r, cid, "%s: %s" % (cid, text)))
+            n += sum(1 for k in r.fixture["ref"] if k.split()[0] in ("GENS", "GEN0", "PED"))
+    return hits, {"searched": n, "hits": len(hits), "distinct_nontrivial": len(nontriv), "distribution": dict(dist),
+                  "rule": "random histories (initial capacity 0..5, 0..3 parties, 0..5 requests in 0..23 incl. no-ops and decreasing ones, a serialisation round trip at a random point) and all views (n <= cap+1, m <= parties+1) on several objects, every real point named by the (kind, party, position) of an independently derived specification chain, compared with the model; value facts on 2 + 2*4*256 (thorough 2048) points per curve: pairwise distinct across G, H, parties and the Pedersen bases, non-identity, Valid::check and r*P = 0, equality with the independent derivation; digests of the first 1,2,8,64,256 generators per (curve, kind, party < 4) and the Pedersen bases against the reference revision's recording"}
+
+
+def search_c18(results, tier, seed, broken):
+    hits, n, nontriv, dist = [], 0, set(), Counter()
+    for comp, streams, r in results:
+        if comp != "fixture" or not hasattr(r, "fixture"):
+            continue
+        fx = r.fixture
+        if fx.get("build_error"):
+            hits.append(_fhit(r, "fixturegen", "the public API the reference revision's fixtures were recorded through no longer compiles: " + fx["build_error"][-300:]))
+        for k, refv in fx["ref_verdicts"].items():
+            n += 1
+            cur = fx["verdicts"].get(k)
+            nontriv.add(k)
+            d = dict(x.split("=") for x in (cur or []))
+            dist["recorded proof ok=%s" % d.get("ok")] += 1
+            if cur is None:
+                hits.append(_fhit(r, k, "recorded proof %s: no verdict from this build" % k))
+                continue
+            if d.get("ok") != "0" or d.get("ok_cap64") != "0":
+                hits.append(_fhit(r, k, "the proof recorded from the reference revision (%s) is no longer accepted for its statement (verdict %s / %s with 64 generators)" % (k, d.get("ok"), d.get("ok_cap64"))))
+            for w in ("wrong_const", "wrong_ctx", "wrong_label", "wrong_comm", "reordered"):
+                if d.get(w) == "0":
+                    hits.append(_fhit(r, k, "the proof recorded from the reference revision (%s) is now accepted for the recorded wrong statement '%s'" % (k, w)))
+                elif d.get(w) == "99":
+                    hits.append(_fhit(r, k, "verification of the recorded proof (%s) panics for the wrong statement '%s'" % (k, w)))
+        for cid, code, text in r.disagreements:
+            if code == 40:
+                n += 1
+                hits.append(_fhit(r, cid, "%s: %s" % (cid, text)))
+        n += len(fx["ref"])
+    return hits, {"searched": n, "hits": len(hits), "distinct_nontrivial": len(nontriv), "distribution": dict(dist),
+                  "rule": "fixtures recorded once from revision b4846a6 through the public API (3 curves x 5 circuits: one multiplier, none, three, two-phase shuffle, mixed 2+3 gates padded to 8): this build must accept each recorded proof (with 8 and with 64 generators), reject it under a changed constant, changed application data, changed transcript label, shifted commitment and reordered commitments, reproduce every recorded generator digest and Pedersen base, and re-prove byte-identical proofs from the recorded RNG seed"}
+
+
 PROPS = {
     "C01": {
         "prop_files": ["Properties/C01.v"], "run_files": ["Run/R1cs.v"],
@@ -663,6 +757,14 @@ PROPS = {
         "assumptions": ["scalar field laws, F-module laws for the group (hypotheses of the theorems)",
                         "challenges are a function of the transcript history (oracle); non-zero where the code inverts them"],
     },
+    "C12": {
+        "prop_files": ["Properties/C12.v"], "run_files": ["Run/Gens.v"],
+        "level": "proof",
+        "components": lambda tier: [("gens", ["gens"], {}), ("fixture", ["fixture"], {})],
+        "search": search_c12,
+        "assumptions": ["the hash-to-point chain (SHA3-512, ChaCha, G::rand with cofactor clearing) is a deterministic stream per label: ch kind party i; its VALUES (pairwise distinct, non-identity, prime order, pinned digests) are measured on the real code, not proved",
+                        "usize party index fits u32 (labels injective below 2^32 parties)"],
+    },
     "C13": {
         "prop_files": ["Properties/C13.v"], "run_files": ["Run/Ped.v"],
         "level": "proof",
@@ -701,5 +803,13 @@ PROPS = {
         "components": lambda tier: [("r1cs", ["capgrid"], {})],
         "search": search_c17,
         "assumptions": ["BulletproofGens.gens_capacity equals the length of the party-0 vectors (true for objects built by new/increase_capacity)"],
+    },
+    "C18": {
+        "prop_files": ["Properties/C18.v"], "run_files": ["Run/R1cs.v"],
+        "level": "translation_validation",
+        "components": lambda tier: [("fixture", ["fixture"], {}), ("r1cs", ["honest"], {})],
+        "search": search_c18,
+        "assumptions": ["fixtures in /verif/fixtures were recorded once from revision b4846a6 through the public API (procedure in fixtures/README.md); they are data, not theorems",
+                        "fresh proofs against the recorded schedule: the honest stream's transcripts (labels, payload objects, order) are compared with the model, which is pinned to the reference format by the C18 theorems"],
     },
 }
